@@ -44,6 +44,9 @@ def heavy(r):
         f"&c = [{min(n, 5000)}d1][5] ?? null; func g(){{ c ?? 1 }}; i=0; while i<{n} {{ i=i+1; g() }}; i",
         f"&c = {min(n, 5000)}d1 * 0; func g(){{ func h(){{ c }}; h() }}; i=0; while i<{n} {{ i=i+1; g() }}; i",
         f"&c = [{min(n, 5000)}d1, 2]; func g(){{ c; 0 }}; i=0; while i<{n} {{ i=i+1; g() }}; i",
+        # counts that are computed and come out negative or absurd: rejected, and the rejection costs what was done, never less
+        f"b(0-{n})", f"p(0-{n})", f"{min(n, 5000)}d1; b(0-{min(n, 5000)})", f"{min(n, 5000)}d1; p(1-{n})", f"(0-{n})d6", f"{min(n, 5000)}d1; (0-{n})a{k}", f"{min(n, 5000)}d1; (0-{n})c{k}",
+        f"{min(n, 5000)}d1; [1]*(0-{n})", f"{min(n, 5000)}d1; 4a3m(0-{n})",
     ]
     return r.choice(pats)
 
@@ -163,6 +166,9 @@ def main(tier):
                     run.violation("uncharged-work: more dice rolled than NumOpCount accounts for", rep)
                 if lim and ops > lim:
                     run.violation("value-returned-over-budget", rep)
+            if head == "err" and (ops < disp or ops < dice):
+                # an error exit reports what the run has cost so far: never less than the instructions dispatched / dice rolled
+                run.violation("uncharged-work: the counter after an error is below the work done", rep)
             if lim and (disp > lim + SLACK or dice > lim + SLACK):
                 run.violation("work-exceeds-budget", rep)
             if ms > 8000:
